@@ -354,3 +354,35 @@ extern "C" void s_resets_and_bulk()
     }
     END();
 }
+
+// removal through the encapsulation hierarchy affects exactly the addressed component, also when later subtrees hold look-alikes
+extern "C" void s_remove_component_encapsulated()
+{
+    auto m = Model::create("m");
+    auto a = Component::create("a");
+    auto b = Component::create("b");
+    auto la = Component::create("l"); // structurally identical leaves
+    auto lb = Component::create("l");
+    a->addComponent(la);
+    b->addComponent(lb);
+    m->addComponent(a);
+    m->addComponent(b);
+    // listed finding C09-lookalike-in-earlier-subtree: the encapsulation search matches structurally inside each subtree before
+    // it tries the next one, so asking for lb removes la; with the define on only the first subtree's component is asked for
+#ifdef KNOWN_LOOKALIKE_EARLIER_SUBTREE
+    int which = vin(1, 1);
+#else
+    int which = vin(0, 1);
+#endif
+    if (which) {
+        bool ok = m->removeComponent(la, true);
+        vcheck(ok && la->parent() == nullptr && a->componentCount() == 0, "removing a grandchild through the encapsulation search removes it");
+        vcheck(lb->parent() == b && b->componentCount() == 1 && b->component(0) == lb, "removing one component leaves its look-alike in another subtree alone");
+    } else {
+        bool ok = m->removeComponent(lb, true);
+        vcheck(ok && lb->parent() == nullptr && b->componentCount() == 0, "removing a grandchild through the encapsulation search removes it");
+        vcheck(la->parent() == a && a->componentCount() == 1 && a->component(0) == la, "removing one component leaves its look-alike in another subtree alone");
+    }
+    vcheck(m->componentCount() == 2 && a->parent() == m && b->parent() == m, "the direct children are untouched");
+    END();
+}
